@@ -1,5 +1,6 @@
 """C19 - validation observes only: no side effects, repeatable, custom rules stay private."""
 import json
+import re
 import os
 import subprocess
 import sys
@@ -47,7 +48,7 @@ PROFILES = {
         "validate": 14, "doc_validate": 8, "validate_custom": 12, "validate_keep": 3,
         "validate_rerun": 6, "validate_optional": 5, "save": 6, "load": 4,
         "restart": 4, "set_values": 3, "rename": 2, "lookalike_prop": 4, "damage_file": 3,
-        "set_link": 3,
+        "set_link": 3, "set_repository": 3,
     }, fault_share=0.25, detached_share=0.25, save_only_backends=("rdf",)),
 }
 MONITORS = [mon_valid]
@@ -82,5 +83,61 @@ def finale(U, interp, env, mem, res):
     return None
 
 
+# validations that create nothing the rest of the history refers to (a kept Validation is
+# addressed by later ops through its number, so keeping one is not left out)
+OBSERVING = ("validate", "doc_validate", "validate_custom", "validate_optional")
+JUDGED = OBSERVING + ("validate_rerun", "validate_keep")
+_VOLATILE = re.compile(r"[0-9a-f]{8}-[0-9a-f]{4}-[0-9a-f]{4}-[0-9a-f]{4}-[0-9a-f]{12}"
+                       r"|[^\"' ]*odml-verif-[0-9]+-[0-9]+")
+
+
+def _outcomes(res):
+    out = {}
+    for line in res.log:
+        try:
+            rec = json.loads(line)
+        except ValueError:
+            continue
+        if isinstance(rec, dict) and "step" in rec and "outcome" in rec and "op" in rec:
+            out[rec["step"]] = (rec["op"].get("op"), json.loads(_VOLATILE.sub("<v>", json.dumps(rec["outcome"]))))
+    return out
+
+
+def differential(res, replay):
+    """'Running a validation changes nothing' in its delayed form: what a validation reports
+    does not depend on which validations ran before it.  The history is replayed without some
+    of its validations; every validation that is still there must report what it reported in the
+    full run (a cache filled by an earlier validation, a Validation object kept somewhere, a
+    set that is never emptied all show here)."""
+    info = res.extra.get("steps_info") or []
+    vsteps = [st["step"] for st in info if st["op"] in OBSERVING]
+    later = [st["step"] for st in info if st["op"] in JUDGED]
+    if not vsteps or not later or later[-1] <= vsteps[0]:
+        return
+    if res.case["run_seed"] % 2:
+        leave_out = set(s_ for s_ in vsteps if s_ < later[-1])          # all before the last one
+    else:
+        leave_out = set(vsteps[::2]) - {later[-1]}
+    if not leave_out:
+        return
+    res.stats["differential_replays"] = res.stats.get("differential_replays", 0) + 1
+    other = replay(res.case, leave_out)
+    full, part = _outcomes(res), _outcomes(other)
+    for step in sorted(part):
+        if step in leave_out or step not in full or full[step][0] not in JUDGED:
+            continue
+        if full[step][1] != part[step][1]:
+            from simkit.session import signature
+            res.violation = {
+                "monitor": "valid.no-delayed-effect", "step": len(res.case["ops"]),
+                "op": {"op": "differential"}, "labels": [], "outcome": ["ret"],
+                "message": "step %d (%s) reports %s when the validations of steps %r are left out "
+                           "of the history, and %s with them" %
+                           (step, full[step][0], json.dumps(part[step][1])[:160], sorted(leave_out)[:6],
+                            json.dumps(full[step][1])[:160]),
+                "signature": signature("valid.no-delayed-effect", "differential", [])}
+            return
+
+
 explore, execute = sessioncheck.make(PROFILES, MONITORS, PROPERTY, prelude=valid_prelude,
-                                     finale=finale)
+                                     finale=finale, differential=differential)
